@@ -59,7 +59,17 @@ fn make_token(ctx: &Ctx, r: &mut Rng, alg: Alg, fmt: Fmt, key_idx: usize, iss: &
     let skind = *r.pick(&STRAT_KINDS);
     g.safe_names = skind.is_custom();
     g.iss = iss.to_string();
-    let u = gen::gen_claims(r, &g);
+    let mut u = gen::gen_claims(r, &g);
+    if r.chance(30) {
+        // a nested (visible or hidden) member that is ALSO called iss and names another issuer, placed
+        // before the top-level one in document order
+        let mut m = serde_json::Map::new();
+        m.insert("org#900;".into(), json!({"iss": "https://issuer.example/B", "name": "x"}));
+        for (k, v) in u.as_object().cloned().unwrap_or_default() {
+            m.insert(k, v);
+        }
+        u = Value::Object(m);
+    }
     let strat = gen::gen_strategy(r, &u, skind);
     let holder = if bound { Some((*r.pick(&[Alg::ES256, Alg::EdDSA]), 0)) } else { None };
     let mut issuer = api::new_issuer(alg, key_idx, r.chance(50));
@@ -249,6 +259,12 @@ fn one_case(ctx: &Ctx, case: u64, l: &mut Local) {
             let at_border = pos == 0 || pos == text.len() || text.as_bytes().get(pos) == Some(&b'.') || (pos > 0 && text.as_bytes()[pos - 1] == b'.');
             if at_border {
                 ops.extend(alpha.iter().map(|c| CharOp::Ins(*c)));
+            }
+            // the LAST character of a segment carries unused trailing bits (2 or 4): every substitution
+            // there, incl. the ones that decode to the same octets under a lenient decoder
+            let last_of_segment = pos + 1 == text.len() || text.as_bytes().get(pos + 1) == Some(&b'.');
+            if last_of_segment && !full {
+                ops.extend(alpha.iter().map(|c| CharOp::Sub(*c)));
             }
             // non-ASCII / invisible / control characters: two random ones per position, all at borders
             {
@@ -557,6 +573,30 @@ fn one_case(ctx: &Ctx, case: u64, l: &mut Local) {
             let hdr = json!({"alg": ha.name(), "jwk": keys::holder_jwk_json(ha, hidx), "kid": "attacker", "jku": "https://attacker.example/keys", "x5c": ["AAAA"]});
             let forged = api::sign_raw(&hdr, &payload, ha.jwt(), &keys::holder_enc(ha, hidx));
             structural(&mut j, &format!("resigned-with-key-announced-in-header-{}", ha.name()), Some(forged), &fixed);
+        }
+    }
+    // ---- the protected header re-encoded to other TEXT with the same typed meaning (white space,
+    // escapes, member order, an added unknown parameter): the signature covers the text, not the meaning
+    {
+        if let Ok(hv) = crate::model::b64d(&segs[0]).map_err(|_| ()).and_then(|b| serde_json::from_slice::<Value>(&b).map_err(|_| ())) {
+            let mut texts: Vec<(String, String)> = (1..=5).map(|m| (format!("respelled-{m}"), crate::model::respell(&hv, m))).collect();
+            if let Some(o) = hv.as_object() {
+                let rev: serde_json::Map<String, Value> = o.iter().rev().map(|(k, v)| (k.clone(), v.clone())).collect();
+                texts.push(("members-reversed".into(), Value::Object(rev).to_string()));
+                let mut more = o.clone();
+                more.insert("zz".into(), json!(1));
+                texts.push(("unknown-parameter-added".into(), Value::Object(more).to_string()));
+                let mut typ = o.clone();
+                typ.entry("typ").or_insert(json!("JWT"));
+                texts.push(("typ-added".into(), Value::Object(typ).to_string()));
+                texts.push(("trailing-newline".into(), format!("{}\n", hv)));
+            }
+            for (name, text) in texts {
+                let h2 = crate::model::b64e(text.as_bytes());
+                if h2 != segs[0] {
+                    structural(&mut j, &format!("header-text-{name}-signature-kept"), Some(format!("{h2}.{}.{}", segs[1], segs[2])), &fixed);
+                }
+            }
         }
     }
     // ---- the header names one algorithm, the (valid!) signature was made with another one of the
